@@ -5,7 +5,8 @@
    Programs are data (JSON arrays deserialised to tuples, tag first):
      stmt ::= <<"user", i>> | <<"bot", b>> | <<"set", x, expr>> | <<"if", cond, then, else>>
             | <<"while", cond, body>> | <<"do", k>>            (k = index of a subflow in P.flows)
-            | <<"exec", a, r>>                                   (r = "" : result not stored)
+            | <<"exec", a, r, p>>                                (r = "" : result not stored; p = "" : no argument,
+                                                                   otherwise `execute a(v=$p)`)
             | <<"break">> | <<"continue">>
             | <<"when", << <<i1, body1>>, <<i2, body2>>, ... >> >>
      expr ::= <<"c", n>> | <<"v", x>> | <<"add", e1, e2>>
@@ -13,7 +14,8 @@
    P = [id, flows : Seq([sub : BOOLEAN, body : Seq(stmt)]), intents : Seq(STRING)]
 
    History events (all 3-tuples):  <<"u", intent, 0>>  <<"b", bot intent, 0>>  <<"a", action, return value>>
-   Decisions (2-tuples):  <<"B", b>> BotIntent b      <<"S", a>> StartInternalSystemAction a
+   Decisions:  <<"B", b>> BotIntent b      <<"S", a, n>> StartInternalSystemAction a, called with v = n
+                          (n = -1: the statement passes no argument; n = -2: the variable holds no integer, value not judged)
                           <<"N", "">> nothing (listen) <<"-", "">> not judged
 
    This module is variable-free: it is shared by MC_V1Flow (history exploration) and Judge_V1Flow
@@ -59,6 +61,7 @@ AfterLoop(k) == IF Len(k) = 0 THEN k ELSE IF Head(k)[1] = "loop" THEN Tail(k) EL
 ToLoop(k)    == IF Len(k) = 0 THEN k ELSE IF Head(k)[1] = "loop" THEN k ELSE ToLoop(Tail(k))
 
 Res(k, ctx, tag, name) == [k |-> k, ctx |-> ctx, dec |-> <<tag, name>>]
+ArgOf(s, ctx) == IF s[4] = "" THEN -1 ELSE IF ctx[s[4]][1] = "i" THEN ctx[s[4]][2] ELSE -2
 
 (* Run: silent steps until the flow blocks.  Result tags:
      B b / S a  the flow's next statement is `bot b` / `execute a`  (the decided next step)
@@ -74,7 +77,7 @@ Run(P, k, ctx, fuel) ==
        IN CASE t = "user" -> Res(k, ctx, "N", "")
             [] t = "when" -> Res(k, ctx, "N", "")
             [] t = "bot"  -> Res(k, ctx, "B", s[2])
-            [] t = "exec" -> Res(k, ctx, "S", s[2])
+            [] t = "exec" -> [k |-> k, ctx |-> ctx, dec |-> <<"S", s[2], ArgOf(s, ctx)>>]
             [] t = "set"  -> LET v == EvalE(s[3], ctx)
                              IN IF v[1] = "e" THEN Res(k, ctx, "E", "")
                                 ELSE Run(P, rest, [ctx EXCEPT ![s[2]] = v], fuel - 1)
@@ -151,8 +154,11 @@ CountRet(k) == IF Len(k) = 0 THEN 0 ELSE (IF Head(k)[1] = "ret" THEN 1 ELSE 0) +
 SubflowDepth(P, h) == CountRet(Conf(P, h, 1, <<>>, Ctx0, "start").k)
 
 (* an observed decision sequence agrees with the property on history h; <<"?", "">> = not observed *)
+Agree(o, e) == \/ o = e
+               \/ /\ o[1] = "S" /\ e[1] = "S" /\ Len(o) = 3 /\ Len(e) = 3 /\ o[2] = e[2]
+                  /\ (o[3] = -2 \/ e[3] = -2)       \* argument value not observed (binding A) / not constrained
 FirstBad(P, h, obs) ==
   LET e == Expected(P, h)
-      bad == {n \in 1..Len(h) : e[n][1] # "-" /\ (n > Len(obs) \/ (obs[n][1] # "?" /\ obs[n] # e[n]))}
+      bad == {n \in 1..Len(h) : e[n][1] # "-" /\ (n > Len(obs) \/ (obs[n][1] # "?" /\ ~Agree(obs[n], e[n])))}
   IN IF bad = {} THEN 0 ELSE CHOOSE n \in bad : \A m \in bad : n <= m
 =============================================================================
